@@ -198,6 +198,15 @@ channel_read_map(struct channel* self, struct channel_reader* reader)
         out = 0;
         *pos = 0;
         *cycle = self->cycle;
+        if (self->head > 0) {
+            // The writer's lap already holds committed data: map it instead
+            // of reporting an empty (i.e. drained) channel.
+            out = self->data;
+            nbytes = self->head;
+            reader->pos = self->head;
+            reader->cycle = self->cycle;
+            reader->state = ChannelState_Mapped;
+        }
     } else {
         reader->state = ChannelState_Mapped;
     }
